@@ -22,9 +22,9 @@ type Evidence struct {
 }
 
 func writeEvidence(prop string, ev *Evidence) {
-	os.MkdirAll(filepath.Join(verifRoot, "evidence"), 0o755)
+	os.MkdirAll(filepath.Join(outRoot(), "evidence"), 0o755)
 	data, _ := json.MarshalIndent(ev, "", " ")
-	os.WriteFile(filepath.Join(verifRoot, "evidence", prop+".json"), data, 0o644)
+	os.WriteFile(filepath.Join(outRoot(), "evidence", prop+".json"), data, 0o644)
 }
 
 func toolFailure(prop, tier string, seed int, t0 time.Time, msg string) int {
@@ -134,7 +134,7 @@ func report(w *World, prop, tier string, seed int, t0 time.Time, gens []*Gen, tr
 	}
 
 	// replay files + VIOLATION lines
-	os.MkdirAll(filepath.Join(verifRoot, "replay", prop), 0o755)
+	os.MkdirAll(filepath.Join(outRoot(), "replay", prop), 0o755)
 	for vi, v := range viols {
 		rf := &ReplayFile{Property: prop, Obligation: v.key, Status: v.why}
 		suffix := " no-failing-input-found"
@@ -148,19 +148,19 @@ func report(w *World, prop, tier string, seed int, t0 time.Time, gens []*Gen, tr
 				}
 			}
 		}
-		path := filepath.Join(verifRoot, "replay", prop, mangle(v.key)+".json")
+		path := filepath.Join(outRoot(), "replay", prop, mangle(v.key)+".json")
 		data, _ := json.MarshalIndent(rf, "", " ")
 		os.WriteFile(path, data, 0o644)
 		if vi < 12 {
 			fmt.Printf("VIOLATION property=%s replay=%s obligation=%s reason=%q%s\n", prop, path, v.key, v.why, suffix)
 		} else if vi == 12 {
-			fmt.Printf("gvc: ... %d further violations (replay files written under %s)\n", len(viols)-12, filepath.Join(verifRoot, "replay", prop))
+			fmt.Printf("gvc: ... %d further violations (replay files written under %s)\n", len(viols)-12, filepath.Join(outRoot(), "replay", prop))
 		}
 		exit = 1
 	}
 	for _, e := range genErrs {
 		if strings.Contains(e, "contract drift") || strings.Contains(e, "VACUOUS") || true {
-			path := filepath.Join(verifRoot, "replay", prop, "generation_error.json")
+			path := filepath.Join(outRoot(), "replay", prop, "generation_error.json")
 			data, _ := json.MarshalIndent(map[string]any{"property": prop, "errors": genErrs}, "", " ")
 			os.WriteFile(path, data, 0o644)
 			fmt.Printf("VIOLATION property=%s replay=%s reason=%q no-failing-input-found\n", prop, path, "verifier could not process the code under contract: "+e)
@@ -278,4 +278,12 @@ func report(w *World, prop, tier string, seed int, t0 time.Time, gens []*Gen, tr
 		}
 	}
 	return exit
+}
+
+// outRoot is where evidence and replay files are written: /verif, unless a scratch run redirects it (GVC_OUT).
+func outRoot() string {
+	if v := os.Getenv("GVC_OUT"); v != "" {
+		return v
+	}
+	return verifRoot
 }
